@@ -8,6 +8,8 @@
 import ALV.Lemmas.C10Min
 import ALV.Lemmas.C10Uniq
 import ALV.Lemmas.C10CovMin
+import ALV.Lemmas.C10Call
+import ALV.Lemmas.C12Gauss
 import ALV.Common.Audit
 
 namespace ALV.Props.C10
@@ -304,6 +306,333 @@ example : covEnergy [(1 : Rat), -1, 0] [1, 2, 3, 4, 3, 2, 5, 1] 2 = 29 ∧ (9730
 example : kcovar [(1 : Rat), 2, 3] (some 3) = .error "ValueError" := by decide +kernel
 example : kcovar [(1 : Rat), 2, 4, 8] (some 1) = .error "ValueError" := by decide +kernel
 example : kcovar [(0 : Rat), 0, 0, 0] (some 1) = .error "ZeroDivisionError" := by decide +kernel
+
+/-! ### when `lpc.kcovar` does NOT return -/
+
+/-- **C10.4d** (the exceptions of `lpc.kcovar(blk, order)`, `order` a natural number or None).
+ValueError (`lag_matrix`: `order ≥ len(blk)`; or the `|k| ≥ 1` exit), ZeroDivisionError (line 326),
+IndexError (order 0 / a block of length ≤ 1: `phi[1][1]`).  Nothing else: in particular the
+unguarded divisions by `beta[q]` in `gamma` (line 337) never raise. -/
+theorem kcovar_raises_kind (unstable : K → Bool) (blk : List K) (order : Option Nat) (e : String)
+    (h : kcovarWith unstable blk order = .error e) :
+    e = "ValueError" ∨ e = "ZeroDivisionError" ∨ (e = "IndexError" ∧ blkOrder blk order = 0) := by
+  by_cases hlt : blkOrder blk order < blk.length
+  · rw [kcovarWith_eq _ _ _ hlt] at h
+    rcases kcovarOn_error_kind h with ⟨he, hl⟩ | he | he
+    · rw [lagTable_length] at hl
+      exact .inr (.inr ⟨he, by omega⟩)
+    · exact .inr (.inl he)
+    · exact .inl he
+  · rcases kcovarWith_short unstable blk order (by omega) with ⟨h', _⟩ | ⟨h', ho, hb⟩
+    · rw [h'] at h; injection h with h; exact .inl h.symm
+    · rw [h'] at h; injection h with h
+      subst ho; subst hb
+      exact .inr (.inr ⟨h.symm, rfl⟩)
+
+/-- **C10.4e** (ZeroDivisionError, exactly).  For `1 ≤ p < len(blk)`: `lpc.kcovar(blk, p)` raises
+ZeroDivisionError iff the Gram–Schmidt loop as coded meets a zero `beta[m] = ⟨B_m, B_m⟩` at some
+`m < p` (all earlier passes having completed: no zero `beta`, no `|k| ≥ 1` exit before). -/
+theorem kcovar_zero_division_iff (unstable : K → Bool) (blk : List K) (p : Nat) (hp : 1 ≤ p)
+    (hlen : p < blk.length) :
+    kcovarWith unstable blk (some p) = .error "ZeroDivisionError" ↔
+      ∃ m, m < p ∧ ∃ s, kcIter (lagTable blk p) unstable m = .ok s ∧ coef s.beta m = 0 := by
+  rw [kcovarWith_eq unstable blk (some p) hlen]
+  have h2 : 2 ≤ (lagTable blk p).length := by rw [lagTable_length]; omega
+  have := kcovarOn_zeroDiv_iff (u := unstable) h2
+  rw [lagTable_length] at this
+  simpa [blkOrder] using this
+
+/-- **C10.4f** (ordered field) ZeroDivisionError means a SINGULAR covariance system: a non-zero
+combination of the delays 1..p annihilates the block on the whole window n = p..N−1 (the delayed
+copies x[n−1..n−p] are linearly dependent there) -/
+theorem kcovar_zero_division_singular [LinearOrder K] [IsStrictOrderedRing K] (unstable : K → Bool)
+    (blk : List K) (order : Option Nat)
+    (h : kcovarWith unstable blk order = .error "ZeroDivisionError") :
+    ∃ b, CovDependent blk (blkOrder blk order) b := by
+  by_cases hlt : blkOrder blk order < blk.length
+  · rw [kcovarWith_eq _ _ _ hlt] at h
+    set p := blkOrder blk order
+    by_cases h2 : 2 ≤ (lagTable blk p).length
+    · obtain ⟨m, hm, s, hs, hz⟩ := (kcovarOn_zeroDiv_iff h2).1 h
+      rw [lagTable_length] at hm
+      exact ⟨_, dependent_of_beta_zero (by omega) hs hz⟩
+    · rcases kcovarOn_error_kind h with ⟨he, _⟩ | he | he
+      · exact absurd he (by decide)
+      · unfold kcovarOn at h
+        simp only [show (lagTable blk p).length ≤ 1 by omega, if_true] at h
+        exact absurd h (by simp)
+      · exact absurd he (by decide)
+  · rcases kcovarWith_short unstable blk order (by omega) with ⟨h', _⟩ | ⟨h', _, _⟩ <;>
+      (rw [h'] at h; exact absurd h (by simp))
+
+/-- **C10.4g** (any field) conversely a singular covariance system excludes a return: "when it
+returns" of the property implies that the delayed copies of the block are linearly independent on
+the window (the normal equations have exactly one solution). -/
+theorem kcovar_returns_nonsingular (unstable : K → Bool) (blk : List K) (order : Option Nat)
+    (a : List K) (e : K) (h : kcovarWith unstable blk order = .ok (a, e)) :
+    ¬ ∃ b, CovDependent blk (blkOrder blk order) b := by
+  rintro ⟨b, hb⟩
+  obtain ⟨_, h1⟩ := kcovarWith_ok h
+  obtain ⟨m, s, hm, hs, hne⟩ := kcovarOn_ok_betas h1
+  rw [lagTable_length] at hm
+  exact no_dependent_of_betas (by omega) hs hne b hb
+
+/-- non-vacuity: a singular system (x[n−2] = 2·x[n−1] on the window) raises
+    ZeroDivisionError at the second pass; the witness annihilates the window -/
+example : kcovar [(1 : Rat), 2, 4, 8, 16, 32] (some 2) = .error "ValueError" := by decide +kernel
+example : kcovar [(4 : Rat), 2, 1, 1/2, 1/4, 1/8] (some 2) = .error "ZeroDivisionError" := by
+  decide +kernel
+example : (List.range 4).map (winOut [(0 : Rat), -2, 1] [4, 2, 1, 1/2, 1/4, 1/8] 2) = [0, 0, 0, 0] := by
+  decide +kernel
+example : kcovar [(0 : Rat), 0, 0, 0] (some 1) = .error "ZeroDivisionError" ∧
+    (List.range 3).map (winOut [(0 : Rat), 1] [0, 0, 0, 0] 1) = [0, 0, 0] := by decide +kernel
+
+/-! ### the call layer: defaults, spellings of `order` / `max_lag`, the StrategyDict -/
+
+section defaults
+variable {α : Type} [Add α] [Mul α] [OfNat α 0]
+
+/-- **C10.5a** `acorr(blk)` = `acorr(blk, len(blk) − 1)`, whatever the block's contents (also when it
+ends in zeros) -/
+theorem acorr_default (blk : List α) (h : blk ≠ []) :
+    acorr blk none = acorr blk (some (blk.length - 1)) := by
+  have := List.length_pos_iff.2 h
+  simp [acorr, show blk.length - 1 + 1 = blk.length by omega]
+
+/-- **C10.5b** `lag_matrix(blk)` = `lag_matrix(blk, len(blk) − 1)` -/
+theorem lagMatrix_default (blk : List α) (h : blk ≠ []) :
+    lagMatrix blk none = lagMatrix blk (some (blk.length - 1)) := by
+  have := List.length_pos_iff.2 h
+  have h0 : blk.length ≠ 0 := by omega
+  have h1 : ¬ blk.length - 1 ≥ blk.length := by omega
+  simp [lagMatrix, h0, h1]
+
+end defaults
+
+/-- **C10.5c** `levinson_durbin(r)` = `levinson_durbin(r, len(r) − 1)` -/
+theorem levinson_default (r : List K) (h : r ≠ []) :
+    levinson r none = levinson r (some (r.length - 1)) := levinson_none_eq r h
+
+/-- **C10.3d** `lpc.kautocor(blk, p)` IS `levinson_durbin(acorr(blk, p), p)` … -/
+theorem kautocor_eq_levinson_acorr (blk : List K) (order : Option Nat) :
+    kautocor blk order = levinson (acorr blk order) order := rfl
+
+/-- … and the default order is `len(blk) − 1` on both layers -/
+theorem kautocor_default (blk : List K) (h : blk ≠ []) :
+    kautocor blk none = kautocor blk (some (blk.length - 1)) := by
+  have hl := List.length_pos_iff.2 h
+  have hr : acorr blk (some (blk.length - 1)) ≠ [] := by
+    intro h0
+    have := congrArg List.length h0
+    simp [acorr] at this
+  rw [kautocor_eq_levinson_acorr, kautocor_eq_levinson_acorr, acorr_default blk h,
+    levinson_default _ hr]
+  congr 2
+  simp [acorr]
+
+theorem kcovar_default (unstable : K → Bool) (blk : List K) (h : blk ≠ []) :
+    kcovarWith unstable blk none = kcovarWith unstable blk (some (blk.length - 1)) := by
+  unfold kcovarWith
+  rw [lagMatrix_default blk h]
+
+/-- **C10.5d** (every spelling of the order).  `levinson_durbin(r, order)` called with the order
+omitted, `None`, an int of any sign (a bool), or a non-int number: when it returns, the filter
+solves the normal equations of the order `callOrder` (the int, 0 for a negative one, `len − 1` by
+default) with the true error; a non-int never returns. -/
+theorem levinsonCall_spec (r : List K) (o : OrdArg) (a : List K) (e : K)
+    (h : levinsonCall r o = .ok (a, e)) :
+    IsYuleWalker r a (callOrder r.length o) ∧ e = predError r a (callOrder r.length o) := by
+  have key : levinson r o.toOption = .ok (a, e) ∧ orderOf r o.toOption = callOrder r.length o := by
+    cases o with
+    | omitted => exact ⟨h, rfl⟩
+    | none => exact ⟨h, rfl⟩
+    | int i =>
+      have hr : 0 ≤ i ∨ r ≠ [] := by
+        by_cases hi : i < 0
+        · right; rintro rfl
+          simp [levinsonCall, hi] at h
+        · left; omega
+      rw [levinsonCall_int r i hr] at h
+      exact ⟨h, rfl⟩
+    | real q fl => simp only [levinsonCall] at h; split at h <;> cases h
+  rw [← key.2]
+  exact ⟨levinson_normal_eqs r _ a e key.1, levinson_error r _ a e key.1⟩
+
+/-- a negative order is order 0 on a non-empty lag list: `A = 1`, `error = r[0]` -/
+theorem levinsonCall_negative (r : List K) (i : Int) (hi : i < 0) (hr : r ≠ []) :
+    levinsonCall r (.int i) = .ok ([1], coef r 0) := by
+  have hl : r.length ≠ 0 := fun h0 => hr (List.length_eq_zero_iff.1 h0)
+  simp only [levinsonCall, hi, if_true, hl, if_false]
+  congr 2
+  rw [inner_eq_sum]
+  simp [coef, adiff]
+
+/-- the exceptions of a `levinson_durbin` call: ParCorError (a zero prediction error of a smaller
+order), IndexError (empty lag list with a default / negative order), TypeError (non-int order; a
+Fraction ≥ len(r) gives ValueError instead: `Stream.take` hands it to `islice`) -/
+theorem levinsonCall_raises_kind (r : List K) (o : OrdArg) (e : String)
+    (h : levinsonCall r o = .error e) :
+    e = "ParCorError" ∨ (e = "IndexError" ∧ r = []) ∨
+      ((e = "TypeError" ∨ e = "ValueError") ∧ ∃ q fl, o = .real q fl) := by
+  have hnone : levinson r none = .error e →
+      e = "ParCorError" ∨ (e = "IndexError" ∧ r = []) ∨
+        ((e = "TypeError" ∨ e = "ValueError") ∧ ∃ q fl, o = .real q fl) := by
+    intro h
+    by_cases hr : r = []
+    · subst hr
+      simp [levinson] at h
+      exact .inr (.inl ⟨h.symm, rfl⟩)
+    · rw [levinson_default r hr] at h
+      exact .inl (levinson_raises_kind r _ e h)
+  cases o with
+  | omitted => exact hnone h
+  | none => exact hnone h
+  | int i =>
+    by_cases hi : i < 0
+    · by_cases hr : r = []
+      · subst hr
+        simp [levinsonCall, hi] at h
+        exact .inr (.inl ⟨h.symm, rfl⟩)
+      · rw [levinsonCall_negative r i hi hr] at h; cases h
+    · rw [levinsonCall_int r i (.inl (by omega))] at h
+      exact .inl (levinson_raises_kind r _ e h)
+  | real q fl =>
+    simp only [levinsonCall] at h
+    split at h <;> injection h with h
+    · exact .inr (.inr ⟨.inr h.symm, q, fl, rfl⟩)
+    · exact .inr (.inr ⟨.inl h.symm, q, fl, rfl⟩)
+
+/-- **C10.5e** `lpc.kautocor(blk, order)` for every spelling of the order: normal equations of
+`acorr(blk, order)`, `error` = energy of `a` convolved with the zero-extended block. -/
+theorem kautocorCall_spec (blk : List K) (o : OrdArg) (a : List K) (e : K)
+    (h : kautocorCall blk o = .ok (a, e)) :
+    IsYuleWalker (acorr blk o.toOption) a (callOrder blk.length o) ∧
+      e = energy a blk (callOrder blk.length o) := by
+  obtain ⟨h1, h2⟩ := kautocorCall_ok h
+  rw [← h2]
+  exact ⟨kautocor_normal_eqs blk _ a e h1, kautocor_energy blk _ a e h1⟩
+
+/-- **C10.5f** `lpc.kcovar(blk, order)` for every spelling of the order -/
+theorem kcovarCall_spec (unstable : K → Bool) (blk : List K) (o : OrdArg) (a : List K) (e : K)
+    (h : kcovarCallWith unstable blk o = .ok (a, e)) :
+    IsCovarSol blk a (callOrder blk.length o) ∧ e = covEnergy a blk (callOrder blk.length o) := by
+  obtain ⟨h1, h2⟩ := kcovarCallWith_ok h
+  rw [← h2]
+  exact ⟨kcovar_normal_eqs unstable blk _ a e h1, (kcovar_error unstable blk _ a e h1).1⟩
+
+/-- samples without an order (complex): `lpc.kcovar` never returns (`k >= 1` raises TypeError) -/
+theorem kcovarCallNoOrder_never_returns (blk : List K) (o : OrdArg) (x : List K × K) :
+    kcovarCallNoOrder blk o ≠ .ok x := by
+  intro h
+  unfold kcovarCallNoOrder at h
+  cases hphi : lagMatrixCall blk o with
+  | error e' => simp [hphi, bind, Except.bind] at h
+  | ok phi =>
+    simp only [hphi, bind, Except.bind] at h
+    cases hk : kcovarOn phi (fun _ => true) with
+    | error e' => rw [hk] at h; dsimp only at h; split at h <;> cases h
+    | ok y => exact kcovarOn_const_true y hk
+
+/-- **C10.5g** the default strategy `lpc(blk, order)`: with an int order ≥ 100 on which
+`lpc.kautocor` returns, it IS `lpc.kautocor` (whatever numpy would do) … -/
+theorem lpcAutocor_ge_100 (np : Strat → List K → OrdArg → Except String (List K × K)) (blk : List K)
+    (i : Int) (hi : 100 ≤ i) (x : List K × K) (hk : kautocorCall blk (.int i) = .ok x) :
+    lpcAutocor np blk (.int i) = .ok x := by
+  have : ¬ i < 100 := by omega
+  simp [lpcAutocor, below100, this, hk, bind, Except.bind]
+
+/-- … below 100, and on ParCorError, it is the numpy strategy; with the order left to its documented
+default `None` it raises TypeError (`None < 100`, Python 3). -/
+theorem lpcAutocor_lt_100 (np : Strat → List K → OrdArg → Except String (List K × K)) (blk : List K)
+    (i : Int) (hi : i < 100) : lpcAutocor np blk (.int i) = np .nautocor blk (.int i) := by
+  simp [lpcAutocor, below100, hi, bind, Except.bind]
+
+theorem lpcAutocor_parcor (np : Strat → List K → OrdArg → Except String (List K × K)) (blk : List K)
+    (i : Int) (hi : 100 ≤ i) (hk : kautocorCall blk (.int i) = .error "ParCorError") :
+    lpcAutocor np blk (.int i) = np .nautocor blk (.int i) := by
+  have : ¬ i < 100 := by omega
+  simp [lpcAutocor, below100, this, hk, bind, Except.bind]
+
+theorem lpcAutocor_default (np : Strat → List K → OrdArg → Except String (List K × K)) (blk : List K) :
+    lpcAutocor np blk .omitted = .error "TypeError" ∧ lpcAutocor np blk .none = .error "TypeError" := by
+  simp [lpcAutocor, below100, bind, Except.bind]
+
+/-- without numpy, a returning `lpc.<strategy>(blk, order)` call is `lpc.kautocor` or `lpc.kcovar`
+    (ordered field) -/
+theorem lpcCall_noNumpy_ok [LinearOrder K] [IsStrictOrderedRing K] (s : Strat) (blk : List K)
+    (o : OrdArg) (x : List K × K) (h : lpcCall noNumpy s blk o = .ok x) :
+    (s = .kcovar ∧ kcovarCall blk o = .ok x) ∨
+    ((s = .kautocor ∨ s = .autocor) ∧ kautocorCall blk o = .ok x) := by
+  cases s with
+  | kcovar => exact .inl ⟨rfl, h⟩
+  | kautocor => exact .inr ⟨.inl rfl, h⟩
+  | nautocor => simp [lpcCall, noNumpy] at h
+  | covar => simp [lpcCall, noNumpy] at h
+  | autocor =>
+    refine .inr ⟨.inr rfl, ?_⟩
+    simp only [lpcCall, lpcAutocor, noNumpy] at h
+    cases hb : below100 o with
+    | error e' => simp [hb, bind, Except.bind] at h
+    | ok b =>
+      simp only [hb, bind, Except.bind] at h
+      cases b with
+      | true => simp at h
+      | false =>
+        simp only [Bool.false_eq_true, if_false] at h
+        cases hk : kautocorCall blk o with
+        | error e' => rw [hk] at h; dsimp only at h; split at h <;> cases h
+        | ok y => rw [hk] at h; exact h
+
+/-- the strategy names of the decorators (the first registered strategy is the default) -/
+theorem strategy_names :
+    defaultStrategy = .autocor ∧
+    ["kautocor", "kacorr", "kautocorrelation", "kauto_correlation"].map strategyOf =
+      List.replicate 4 (some .kautocor) ∧
+    ["kcovar", "kcov", "kcovariance"].map strategyOf = List.replicate 3 (some .kcovar) ∧
+    ["autocor", "acorr", "autocorrelation", "auto_correlation"].map strategyOf =
+      List.replicate 4 (some .autocor) ∧
+    ["nautocor", "nacorr", "nautocorrelation", "nauto_correlation"].map strategyOf =
+      List.replicate 4 (some .nautocor) ∧
+    ["covar", "cov", "covariance", "ncovar", "ncov", "ncovariance"].map strategyOf =
+      List.replicate 6 (some .covar) ∧
+    strategyOf "levinson" = none := by decide
+
+/-- non-vacuity of the call layer -/
+example : levinsonCall [(4 : Rat), 2, 1] (.int (-5)) = .ok ([1], 4) := by decide +kernel
+example : levinsonCall [(4 : Rat), 2, 1] .omitted = levinsonCall [(4 : Rat), 2, 1] (.int 2) := by
+  decide +kernel
+example : levinsonCall ([] : List Rat) (.int (-1)) = .error "IndexError" := by decide +kernel
+example : levinsonCall [(4 : Rat), 2, 1] (.real 2 true) = .error "TypeError" ∧
+    levinsonCall [(4 : Rat), 2, 1] (.real 3 true) = .error "TypeError" ∧
+    levinsonCall [(4 : Rat), 2, 1] (.real 3 false) = .error "ValueError" := by decide +kernel
+example : kautocorCall [(1 : Rat), 2, 3] (.int 1) = .ok ([1, -4/7], 66/7) := by decide +kernel
+example : kautocorCall [(1 : Rat), 2, 3] (.int (-1)) = .error "IndexError" := by decide +kernel
+example : lagMatrixCall [(1 : Rat), 2, 3] (.real 3 true) = .error "ValueError" ∧
+    lagMatrixCall [(1 : Rat), 2, 3] (.real 2 false) = .error "TypeError" ∧
+    lagMatrixCall [(1 : Rat), 2, 3] (.int (-2)) = .ok [] := by decide +kernel
+example : lpcCall noNumpy .autocor [(0 : Rat), 0] (.int 100) = .error "ModuleNotFoundError" ∧
+    kautocorCall [(0 : Rat), 0] (.int 100) = .error "ParCorError" := by decide +kernel
+example : lpcCall noNumpy .autocor [(1 : Rat), 2] (.int 5) = .error "ModuleNotFoundError" := by
+  decide +kernel
+
+/-- the canonical name of a strategy selects it -/
+theorem strategyOf_name (s : Strat) : strategyOf s.name = some s := by cases s <;> decide
+
+/-! ### complex samples: the executable Gaussian rationals of the driver are a field -/
+
+/-- the theorems above hold for the Gaussian rationals the driver computes with (`Field GRat`:
+`Lemmas/C12Gauss.lean`); its division is multiplication by `conj x / |x|²` -/
+theorem levinson_gauss (r : List ALV.C12.GRat) (order : Option Nat) (a : List ALV.C12.GRat)
+    (e : ALV.C12.GRat) (h : levinson r order = .ok (a, e)) :
+    IsYuleWalker r a (orderOf r order) ∧ e = predError r a (orderOf r order) :=
+  ⟨levinson_normal_eqs r order a e h, levinson_error r order a e h⟩
+
+theorem gauss_inv (x : ALV.C12.GRat) :
+    (ALV.C12.GRat.inv x).re = x.re / (x.re * x.re + x.im * x.im) ∧
+    (ALV.C12.GRat.inv x).im = -x.im / (x.re * x.re + x.im * x.im) := ⟨rfl, rfl⟩
+
+example : levinson [(⟨2, 1⟩ : ALV.C12.GRat), ⟨0, 1⟩] (some 1) = .ok ([1, ⟨-1/5, -2/5⟩], ⟨12/5, 4/5⟩) := by
+  decide +kernel
 
 end ALV.Props.C10
 
